@@ -344,13 +344,12 @@ theorem ops_persistent_fails_with_aliasing :
 
 /-! ## the code computes what F&O prescribes, over any operation sequence -/
 
-/-- **The code computes what F&O prescribes, over any operation sequence.**  From every state whose
-map objects are well-formed, for every sequence of operations without `deep-equal` steps (their
-atomic comparison differs from F&O for integers beyond 2^53 against doubles, finding F15m; see the
-deep-equal theorems below), the interpreter built from the Python transcriptions and the one built
-from the F&O definitions reach the same state: same store, same values, same errors. -/
-theorem run_refines_spec (st : St) (hst : MapsWF st.store) (ops : List Op)
-    (hops : ∀ op ∈ ops, opIsDeq op = false) :
+/-- **The code computes what F&O prescribes, over any operation sequence** (full strength: no
+hypothesis on keys, no operation excluded).  From every state whose map objects are well-formed, for
+every sequence of operations — constructors, map:*, array:*, `?`, dynamic calls, higher-order
+functions, deep-equal — the interpreter built from the Python transcriptions and the one built from
+the F&O definitions reach the same state: same store, same values, same errors. -/
+theorem run_refines_spec (st : St) (hst : MapsWF st.store) (ops : List Op) :
     run (pyDialect false) st ops = run Spec.specDialect st ops := by
   -- K = all keys of the store and of the operations
   let K := (st.store.flatMap fun o => match o with | .map es => keysOf es | .arr _ => []) ++ ops.flatMap opKeys
@@ -359,18 +358,17 @@ theorem run_refines_spec (st : St) (hst : MapsWF st.store) (ops : List Op)
     refine ⟨hst a es ha, fun e he => List.mem_append_left _ ?_⟩
     exact List.mem_flatMap.2 ⟨Obj.map es, List.mem_of_getElem? ha, mem_keysOf he⟩
   · intro op hop
-    exact ⟨fun k hk => List.mem_append_right _ (List.mem_flatMap.2 ⟨op, hop, hk⟩), hops op hop⟩
+    exact fun k hk => List.mem_append_right _ (List.mem_flatMap.2 ⟨op, hop, hk⟩)
 
 /-- …in particular from the empty state. -/
-theorem run_refines_spec_from_empty (ops : List Op) (hb : ∀ op ∈ ops, opIsDeq op = false) :
+theorem run_refines_spec_from_empty (ops : List Op) :
     run (pyDialect false) ⟨[], []⟩ ops = run Spec.specDialect ⟨[], []⟩ ops :=
-  run_refines_spec ⟨[], []⟩ (fun a es h => by simp at h) ops hb
+  run_refines_spec ⟨[], []⟩ (fun a es h => by simp at h) ops
 
 /-- test on a non-trivial history (keys 1, 1.0, 'a', NaN, true(); put, merge, lookup) -/
 example :
     let ops := [Op.seq [.lit (.int 7)], .mCtor [(.int 1, 0), (.str [97], 0), (.dnan, 0)],
       .mPut 1 (.dec 1) 0, .seq [.var 1, .var 2], .mMerge 3 (some .combine), .lookup 4 (some [.dnan, .int 1])]
-    (∀ op ∈ ops, opIsDeq op = false) ∧
     (run (pyDialect false) ⟨[], []⟩ ops).env.getLast? =
       some [.atom (.int 7), .atom (.int 7), .atom (.int 7), .atom (.int 7)] := by decide
 
@@ -493,27 +491,23 @@ theorem atom_deep_equal_refl_symm :
     (∀ a : Key, pyAtomEq a a = true) ∧ (∀ a b : Key, pyAtomEq a b = pyAtomEq b a) :=
   ⟨pyAtomEq_refl, pyAtomEq_symm⟩
 
-/-- PARTIAL (F15m).  Full statement: *the atomic comparison of the code is
-F&O's "`eq` or both NaN"*.  It holds outside `atomClash`, and `atomClash a b` is possible only for
-an integer against a double (Python compares exactly where F&O first converts the integer to
-xs:double — observable beyond 2^53 only). -/
-theorem atom_deep_equal_partial (a b : Key) :
-    (atomClash a b = false → pyAtomEq a b = Spec.atomDeepEqual a b) ∧
-    (atomClash a b = true → atomClashShape a b = true) :=
-  ⟨pyAtomEq_eq_spec_of_not_clash, atomClash_shape a b⟩
+/-- **deep-equal on atoms, full strength**: the atomic branch of `deep_equal` is F&O's "`eq` or both
+NaN" for every pair of atomic values (numeric promotion of integers and decimals to double
+included, fixed finding F15m). -/
+theorem atom_deep_equal (a b : Key) : pyAtomEq a b = Spec.atomDeepEqual a b := pyAtomEq_eq_spec a b
 
-/-- kernel-checked witness: 2^53+1 against the double 2^53 (F15m); agreement on hexBinary against
-base64Binary (both false);
-and agreement on the usual suspects (0.1 against 0.1e0 is equal for both: the decimal is converted
-to double; `true()` against 1 is unequal for both) -/
-theorem atom_deep_equal_witnesses :
-    pyAtomEq (.int 9007199254740993) (.dbl 9007199254740992 false) = false ∧
-    Spec.atomDeepEqual (.int 9007199254740993) (.dbl 9007199254740992 false) = true ∧
+/-- …and so deep-equal of the code is deep-equal of the spec interpreter on all (nested) values -/
+theorem deep_equal_refines_spec (s : Store) (fuel : Nat) (v1 v2 : Seq) :
+    deepEqSeq (pyDialect false) s fuel v1 v2 = deepEqSeq Spec.specDialect s fuel v1 v2 :=
+  deepEq_py_eq_spec s fuel v1 v2
+
+/-- tests on literals: 2^53+1 against the double 2^53 (equal after promotion), hexBinary against
+base64Binary (false), 0.1 against 0.1e0 (true), true() against 1 (false) -/
+example :
+    pyAtomEq (.int 9007199254740993) (.dbl 9007199254740992 false) = true ∧
     pyAtomEq (.opq 3 [0, 255]) (.opq 4 [0, 255]) = false ∧
-    Spec.atomDeepEqual (.opq 3 [0, 255]) (.opq 4 [0, 255]) = false ∧
     pyAtomEq (.dec (mkRat 1 10)) (.dbl (mkRat 3602879701896397 36028797018963968) false) = true ∧
-    Spec.atomDeepEqual (.dec (mkRat 1 10)) (.dbl (mkRat 3602879701896397 36028797018963968) false) = true ∧
-    pyAtomEq (.bool true) (.int 1) = false ∧ Spec.atomDeepEqual (.bool true) (.int 1) = false := by
+    pyAtomEq (.bool true) (.int 1) = false := by
   decide
 
 end EPV.C15
